@@ -321,6 +321,8 @@ def run(tier, seed, factor=1):
     N = common.scale(tier, 5, 6)
     cfgs = speccheck.make_configs(rnd, common.scale(tier, 200, 2500) * factor)
     cfgs += [specrun.revnames_config(rnd) for _ in range(max(24, len(cfgs) // 10))]  # children listing their statistics in another order
+    prnd = random.Random(seed * 6700417 + 7)
+    cfgs += [specrun.pad_config(prnd) for _ in range(max(16, len(cfgs) // 12))]  # equivalences whose non-empty child is not child 0
     outs = specrun.pool_map(spec_worker, [(c, N) for c in cfgs])
     specrun.quiet()
     for o in outs:
